@@ -589,6 +589,8 @@ def r09g(ctx, run):
 
 
 def c07_name(v):
+    if isinstance(v, Variant) and v.last == "Pointer":
+        return ("^mut " if v.payload.get("mutable") is True else "^" if v.payload.get("mutable") is False else "^<%r> " % (v.payload.get("mutable"),)) + c07_name(v.payload.get("sub_ty"))
     if isinstance(v, Variant):
         w = v.payload.get("0") if v.payload else None
         return {"UInt": "{uint}" if w == 0 else "u%s" % w, "IInt": "{int}" if w == 0 else "i%s" % w, "Float": "{float}" if w == 0 else "f%s" % w}.get(v.last, v.last)
@@ -775,6 +777,71 @@ def r09l(ctx, run):
                       % (num, key.split(":")[1], "must get a 64-bit type of its family" if num > weak_max else "fits an i32 and must be left alone", "; ".join(bad)))
 
 
+def r09m(ctx, run):
+    """weak-type replacement through a dereference: when `p^` is given a new type T, the pointer expression `p` is given `^T` / `^mut T` with the
+    mutability of ITS OWN type.  The Deref arm of replace_weak_tys is evaluated from source on (pointer type, pointee type) samples; the type handed to
+    the recursive call for the pointer must be Pointer { mutable: <that of p's type>, sub_ty: T } - anything else leaves `p` with a type its own local
+    does not have (re-inference then finds `^i32` where it computes `^mut i32` and panics), or lets a write through a `^T` typed expression."""
+    import c07
+    from absint import Obj, Term, Variant, Panic, CannotEstablish, _Return
+    V = Variant
+    fn = ctx.syn.fn("GlobalInferenceCtx::replace_weak_tys", "hir_ty/src/globals.rs")
+    arms = [(p_, b, a) for m in synq.matches_on(fn.body) if canon(m["e"]) == "expr_body" for h, p_, g, b, a in synq.match_table(m) if h and synq.last_seg(h) == "Deref"]
+    if len(arms) != 1:
+        raise LookupError("the Deref arm of replace_weak_tys: %d" % len(arms))
+    pat, body, arm = arms[0]
+    binder = [x["n"] for x in walk(pat) if x.get("k") == "p_ident"]
+    if len(binder) != 1:
+        raise LookupError("binders of the Deref arm: %s" % binder)
+    QI = c07.make_ty_interp(ctx)
+    weak, i32 = V("Ty::UInt", {"0": 0}), V("Ty::IInt", {"0": 32})
+    ptr = lambda m, t: V("Ty::Pointer", {"mutable": m, "sub_ty": t})
+    E, P = Term("e_deref"), Term("e_pointer")
+    cases = []
+    for pm in (True, False):
+        cases.append(("p : %s{uint}, `p^` becomes i32" % ("^mut " if pm else "^"), ptr(pm, weak), weak, i32, pm))
+        for im in (True, False):
+            inner_old, inner_new = ptr(im, weak), ptr(im, i32)
+            cases.append(("pp : %s%s{uint}, `pp^` becomes %si32" % ("^mut " if pm else "^", "^mut " if im else "^", "^mut " if im else "^"), ptr(pm, inner_old), inner_old, inner_new, pm))
+    for desc, pty, ety, new_ty, want_mut in cases:
+        tys = {E: ety, P: pty}
+        calls = []
+
+        class RI(QI):
+            def eval(self, e, env):
+                if e.get("k") == "index" and canon(e["e"]) in ("self.tys[self.loc].expr_tys", "self.tys[self.loc]"):
+                    return tys[self.eval(e["i"], env)]
+                return super().eval(e, env)
+
+            def default_method(self, recv, m_, args, e):
+                if isinstance(recv, Obj) and recv.name == "self" and m_ == "replace_weak_tys":
+                    calls.append((args[0], args[1]))
+                    return True
+                none = recv is None or (isinstance(recv, Variant) and recv.last == "None")
+                if m_ == "unwrap_or_default":
+                    return False if none else recv
+                if m_ == "map" and len(args) == 1 and (none or isinstance(recv, tuple)):
+                    return None if none else self.call_closure(args[0], [recv])
+                return super().default_method(recv, m_, args, e)
+        it = RI()
+        env = {"self": Obj("self"), "expr": E, binder[0]: P, "new_ty": new_ty, "found_ty": ety}
+        key = "deref-keeps-mutability:" + desc
+        try:
+            try:
+                it.eval(body, env)
+            except _Return:
+                pass
+        except (Panic, CannotEstablish) as c:
+            run.finding(fn.qual, key, fn.file, arm["ln"], "cannot establish what replace_weak_tys hands the pointer of a dereference (%s): %s" % (desc, getattr(c, "what", c)))
+            continue
+        want = ptr(want_mut, new_ty)
+        got = [ty for t, ty in calls if t == P]
+        run.check(got == [want], fn.site(arm["ln"]), "%s: the pointer expression is given %s" % (desc, c07_name(want)), fn.qual, key, fn.file, arm["ln"],
+                  "%s: the pointer expression is given %s, it must be given %s - the mutability of a pointer expression's type is its own, not the pointee's: its local keeps "
+                  "the old mutability, so re-inference meets a type it cannot reconcile (compiler panic on a well-typed program) or the expression's type lies about what may "
+                  "be written through it" % (desc, [c07_name(g) for g in got] or "nothing", c07_name(want)))
+
+
 def r09k(ctx, run):
     """inference of a body is resumable: infer_expr returns early when it meets a global that is not inferred yet and a NEW GlobalInferenceCtx runs it
     again; statements finished in an earlier run are skipped through the set `inferred_stmts`, which outlives the runs.  A table of the context that is
@@ -864,6 +931,7 @@ def rules(ctx):
         Rule("R09.h", "a weak local that is assigned a sized value takes the value's type (plain-assignment arm of reinfer_usages evaluated)", 4, r09h),
         Rule("R09.i", "re-inference carries a widened literal's type up through every form whose type follows its parts", 8, r09i),
         Rule("R09.l", "the final pass widens a still-weak literal by its value alone: IntLiteral arm of reinfer_expr evaluated under every answer to its questions about other state", 16, r09l),
+        Rule("R09.m", "weak-type replacement through `p^` gives the pointer expression a pointer type with the mutability of its own type (Deref arm of replace_weak_tys evaluated)", 6, r09m),
         Rule("R09.k", "tables filled while a statement is inferred survive the interruptions of the body's inference (or are filled for skipped statements too)", 1, r09k),
         Rule("R09.f", "code generation materialises the written value: iconst/fNNconst/data object built from n without sign extension or truncation; constant data at the type's width", 20, r09f),
         Rule("R09.d", "weak literal widening thresholds do not exceed the maximum of the type codegen gives weak ints", 6, r09d),
